@@ -9,58 +9,8 @@
 //      (private free function, extracted by text: no hook needed)
 // =================================================================================================
 //@const programs/store/src/constants/mod.rs :: MARKET_DECIMALS :: u8 = Decimal::MAX_DECIMALS
+//@include inc/oracle_price.rs
 verus! {
-// ASSUMED std contract (vstd has none)
-pub assume_specification [u128::abs_diff] (a: u128, b: u128) -> (r: u128)
-    ensures r == (if a >= b { a - b } else { b - a });
-
-//@struct crates/utils/src/price/mod.rs :: pub struct Price :: min, max
-#[derive(Clone, Copy, Debug)]
-pub struct UPrice { pub min: Decimal, pub max: Decimal }
-
-impl Price {
-//@unit C29.Price.checked_mid
-//@ file crates/model/src/price.rs
-//@ within impl<T> Price<T> where T: CheckedAdd + CheckedDiv + num_traits::One,
-//@ fn checked_mid
-//@ sig fn checked_mid(&self) -> Option<T>
-//@ sub \.and_then\(\|p\| p\.checked_div\(&two\)\) => .and_then(|p: N| -> (o: Option<N>) ensures o == Some(N((p@ / 2) as u128)) { p.checked_div(&two) })
-    pub fn checked_mid(&self) -> (r: Option<N>)
-        ensures
-            r.is_some() <==> self.min@ + self.max@ <= umax(),
-            r.is_some() ==> r.unwrap()@ == (self.min@ + self.max@) / 2,
-//@body
-}
-
-impl PriceP {
-//@unit C29.PriceP.from
-//@ file crates/model/src/price.rs
-//@ within impl<'a> From<&'a gmsol_utils::price::Price> for Price<u128>
-//@ fn from
-//@ sig fn from(value: &'a gmsol_utils::price::Price) -> Self
-    pub fn from(value: &UPrice) -> (r: PriceP)
-        requires dec_wf(value.min), dec_wf(value.max)
-        ensures r.min == unit_price(value.min), r.max == unit_price(value.max)
-//@body
-
-    /// glue: u128-typed forwarding wrapper to the N-level verified `Price::checked_mid`
-    pub fn checked_mid(&self) -> (r: Option<u128>)
-        ensures
-            r.is_some() <==> self.min + self.max <= umax(),
-            r.is_some() ==> r.unwrap() == (self.min + self.max) / 2,
-    {
-        match (Price { min: N(self.min), max: N(self.max) }).checked_mid() { Some(x) => Some(x.0), None => None }
-    }
-}
-
-/// the allowed band around the reference: [ref - dev, ref + dev], dev = floor(ref * factor / U)
-pub open spec fn deviation(reference: int, factor: int) -> int { mul_div_floor(reference, factor, uunit()) }
-pub open spec fn reference_of(price: UPrice, ref_price: Option<&Decimal>) -> int {
-    match ref_price { Some(d) => unit_price(*d), None => (unit_price(price.min) + unit_price(price.max)) / 2 }
-}
-pub open spec fn dev_of(price: UPrice, ref_price: Option<&Decimal>, factor: u128) -> int { deviation(reference_of(price, ref_price), factor as int) }
-pub open spec fn in_band(p: int, reference: int, dev: int) -> bool { reference - dev <= p <= reference + dev }
-
 //@unit C29.try_adjust_price_with_max_deviation_factor
 //@ file programs/store/src/states/oracle/mod.rs
 //@ fn try_adjust_price_with_max_deviation_factor
@@ -83,8 +33,4 @@ pub fn try_adjust_price_with_max_deviation_factor(factor: &u128, price: &UPrice,
              && in_band(unit_price(r.unwrap().max), reference_of(*price, ref_price), dev_of(*price, ref_price, *factor)),
 //@body
 
-pub proof fn lemma_floor_step(x: int, k: int) requires x >= 0, k > 0 ensures (x / k) * k <= x
-{ lemma_fundamental_div_mod(x, k); lemma_mod_bound(x, k); lemma_mul_is_commutative(x / k, k); }
-pub proof fn lemma_ceil_step(x: int, k: int) requires x >= 0, k > 0 ensures ((x + k - 1) / k) * k >= x
-{ lemma_fundamental_div_mod(x + k - 1, k); lemma_mod_bound(x + k - 1, k); lemma_mul_is_commutative((x + k - 1) / k, k); }
 } // verus!
